@@ -335,6 +335,15 @@ func (fr *Frame) loopCallEffects(pre *State, li *loopInfo, eff *loopEffects, c *
 	if fr.callIsPure(c) {
 		return
 	}
+	// labels whose counters the callee may bump through calls it makes itself
+	if ct := vc.p.contracts[key]; ct == nil || !ct.HasMod {
+		for lab := range vc.labels {
+			one := map[string]bool{lab: true}
+			if vc.p.mayReachCounted(c, callee, one) {
+				eff.counters = append(eff.counters, lab)
+			}
+		}
+	}
 	if callee != nil && vc.p.contracts[key] == nil && fr.canInline(callee) && fr.effectFree(callee, 0) {
 		// inlinable callee that only reads and allocates
 		*touchAlloc = true
